@@ -145,3 +145,12 @@ Theorem C19_safe_types_have_no_mutating_methods : forall f,
   In f gen_funcs -> mem_name2 (f_pkg f, f_recv f) safe_types = true -> f_recv_ptr f = false.
 Proof. exact safe_types_have_no_pointer_methods. Qed.
 Print Assumptions C19_safe_types_have_no_mutating_methods.
+
+(* every exported function or method that is not in the reviewed API has no parameter through which it
+   could write a trusted value (no pointer to a safe or carrier type, however nested), and no method
+   with an exported name is promoted to an exported type from an embedded unexported type without a
+   review entry; exported constants are judged like exported variables (C19_closed_world_vars) *)
+Theorem C19_no_unreviewed_writers_or_promoted_methods : forall f, In f gen_funcs ->
+  param_ptr_tracked_ok f = true /\ promoted_method_ok f = true.
+Proof. exact surface_extra_lifted. Qed.
+Print Assumptions C19_no_unreviewed_writers_or_promoted_methods.
